@@ -4,12 +4,91 @@ from vlib import Case
 RULE = ("op `enc <byte> <operands>`: definitions::make, lookup and read_operands on the real code vs the Lean model; "
         "the spec demands decode(encode(operands)) = operands whenever every operand fits its declared width; "
         "distinct = distinct (opcode byte, operand list); non-trivial = the opcode has a DEFINITIONS row and code was produced")
-ASSUMPTIONS = ["operands are usize values; the harness passes them to make() unchanged"]
+ASSUMPTIONS = ["operands are usize values; the harness passes them to make() unchanged",
+               "limit programs (op `eval`): whole programs whose operands sit at and beyond the 8/16-bit boundaries (jump targets around 32768 and beyond 65535, local / argument / "
+               "captured-variable counts around 255, literal sizes around 255/256/65535, constant indices beyond 255) run through the real scanner, parser, compiler and VM; the expected "
+               "result is computed by the generator; beyond a boundary the outcome must be the correct result or a compile error, never a wrong run (constants/globals beyond 65535 in the thorough tier)"]
 EXHAUSTIVE = False
+HARNESS_TIMEOUT = 900
 
 
 def nontrivial(c):
-    return " dec=[" in c.impl
+    return " dec=[" in c.impl or (c.line.startswith("eval ") and c.impl.startswith(("ok", "cerr")))
+
+
+def spec_override(c):
+    e = (c.extra or {}).get("expect")
+    return e if e else c.spec
+
+
+def model_skip(c):
+    return c.line.startswith("eval ")
+
+
+def classify(c):
+    return (c.extra or {}).get("name")
+
+
+def hx(s):
+    return s.encode("utf-8").hex()
+
+
+def limit_programs(thorough):
+    """-> [(name, source, verdict)]; verdicts in the oracle language of vlib.judge_spec"""
+    out = []
+    ok = lambda final, obs: f"ok {final} obs=a[{','.join('i:%d' % o for o in obs)}] sp=0"
+
+    def exact(name, src, final, obs):
+        out.append((name, src, "eq " + ok(final, obs)))
+
+    def ok_or_rejected(name, src, final, obs):
+        out.append((name, src, "oneof " + ok(final, obs) + " || cerr*"))
+    pad = lambda n: "acc = acc + 1;\n" * n
+    # --- jump targets: below 32768, between 32768 and 65535 (every kind of jump), beyond 65535
+    tail = ("if acc > 0 { push(obs, 1); } else { push(obs, 2); }\npush(obs, 3);\nlet i = 0;\nwhile i < 3 { i = i + 1; if i == 2 { continue; } push(obs, 10 + i); }\n"
+            "loop { i = i + 1; if i > 5 { break; } }\npush(obs, i);\npush(obs, match acc { 0 => 7, _ => 8 });\npush(obs, if acc == 0 { 4 } else { 5 });\n"
+            "push(obs, (acc > 0) && (acc > 1));\nacc\n")
+    for n in (100, 2900, 3100, 5000):
+        exact(f"jump-target-after-{n}-statements", "let obs = [];\nlet acc = 0;\n" + pad(n) + tail.replace("push(obs, (acc > 0) && (acc > 1));\n", ""), f"i:{n}", [1, 3, 11, 13, 6, 8, 5])
+    # the same inside one function body
+    exact("jump-target-in-function-body", "let obs = [];\nfn f(acc) {\n" + pad(3100) + "if acc > 0 { push(obs, 1); } else { push(obs, 2); }\nlet i = 0;\nwhile i < 2 { i = i + 1; }\nreturn acc + i;\n}\nf(0)\n",
+          "i:3102", [1])
+    # a forward jump across more than 65535 bytes / a backward jump of a loop longer than 65535 bytes
+    big = 6100
+    ok_or_rejected("if-branch-longer-than-65535-bytes", "let obs = [];\nlet acc = 0;\nif acc == 0 {\n" + pad(big) + "} else { push(obs, 2); }\npush(obs, 3);\nacc\n", f"i:{big}", [3])
+    ok_or_rejected("loop-body-longer-than-65535-bytes", "let obs = [];\nlet acc = 0;\nlet k = 0;\nwhile k < 2 {\nk = k + 1;\n" + pad(big) + "}\npush(obs, k);\nacc\n", f"i:{2 * big}", [2])
+    # --- locals of one function
+    for n in (200, 255, 256, 257, 300):
+        body = "".join(f"let l{j} = {j};\n" for j in range(n))
+        src = f"let obs = [];\nfn f() {{\n{body}return l0 + l{n - 1} + l{n // 2};\n}}\nf()\n"
+        (exact if n <= 255 else ok_or_rejected)(f"locals-{n}", src, f"i:{n - 1 + n // 2}", [])
+    # --- call arguments / parameters
+    for n in (200, 255, 256, 300):
+        params = ", ".join(f"p{j}" for j in range(n))
+        args = ", ".join(str(j) for j in range(n))
+        src = f"let obs = [];\nfn f({params}) {{ p0 + p{n - 1} + p{n // 2} }}\nf({args})\n"
+        (exact if n <= 255 else ok_or_rejected)(f"arguments-{n}", src, f"i:{n - 1 + n // 2}", [])
+    # --- captured variables of one closure
+    for n in (200, 255, 256, 257, 300):
+        lets = "".join(f"let c{j} = {j};\n" for j in range(n))
+        uses = " + ".join(f"c{j}" for j in range(n))
+        src = f"let obs = [];\nfn mk() {{\n{lets}return fn() {{ {uses} }};\n}}\nlet k = mk();\nk()\n"
+        (exact if n <= 255 else ok_or_rejected)(f"captures-{n}", src, f"i:{n * (n - 1) // 2}", [])
+    # --- literal sizes: arrays and maps (operand = element count / 2 x pair count); constant indices beyond 255
+    for n in (127, 128, 255, 256, 257, 1000, 3000):
+        src = f"let obs = [];\nlet a = [{', '.join(str(j) for j in range(n))}];\npush(obs, len(a));\npush(obs, a[{n - 1}]);\na[{n // 2}]\n"
+        exact(f"array-literal-{n}", src, f"i:{n // 2}", [n, n - 1])
+    for n in (100, 127, 128, 129, 200, 256, 1000, 1500):
+        src = f"let obs = [];\nlet m = map {{{', '.join(f'{j}: {j + 1}' for j in range(n))}}};\npush(obs, len(m));\npush(obs, m[{n - 1}]);\nm[0]\n"
+        exact(f"map-literal-{n}-pairs", src, "i:1", [n, n])
+    if thorough:
+        # operands beyond 16 bits: constants, globals, literal sizes
+        ok_or_rejected("array-literal-65536", f"let obs = [];\nlet a = [{', '.join('1' for _ in range(65536))}];\nlen(a)\n", "i:65536", [])
+        ok_or_rejected("map-literal-32768-pairs", f"let obs = [];\nlet m = map {{{', '.join(f'{j}: 1' for j in range(32768))}}};\nlen(m)\n", "i:32768", [])
+        exact("constants-65000", "let obs = [];\n" + "".join(f"{j};\n" for j in range(65000)) + "push(obs, 7);\n65000\n", "i:65000", [7])
+        ok_or_rejected("constants-65600", "let obs = [];\n" + "".join(f"{j};\n" for j in range(65600)) + "push(obs, 7);\n65600\n", "i:65600", [7])
+        ok_or_rejected("globals-65600", "let obs = [];\n" + "".join(f"let g{j} = {j % 7};\n" for j in range(65600)) + "g65599\n", f"i:{65599 % 7}", [])
+    return out
 
 
 def cases(ctx):
@@ -40,4 +119,6 @@ def cases(ctx):
     for v in (vals16 if ctx.thorough() else vals16[::7]):
         for w in (0, 255, 256):
             out.append(Case(f"enc 34 {v} {w}", ("closure",)))
+    for name, src, verdict in limit_programs(ctx.thorough()):
+        out.append(Case("eval " + hx(src), ("limit-program",), extra={"expect": verdict, "name": "limit " + name}))
     return out
